@@ -133,8 +133,10 @@ type Event struct {
 }
 
 type InputRec struct {
-	Name string
-	T    *Term
+	Name     string
+	Base     string
+	T        *Term
+	Unsigned bool
 }
 
 type State struct {
